@@ -1,5 +1,6 @@
 SPECIFICATION Spec
 CONSTANTS
+  ParserMode <- ModeJson
   Depth2 = TRUE
   Emit = TRUE
 INVARIANT InvIdealRoundTrip
